@@ -6,7 +6,7 @@ use proptest::prelude::*;
 use saito_core::core::consensus::block::Block;
 use saito_core::core::consensus::mempool::Mempool;
 use saito_core::core::consensus::slip::{Slip, SlipType};
-use saito_core::core::consensus::transaction::TransactionType;
+use saito_core::core::consensus::transaction::{Transaction, TransactionType};
 use saito_core::core::defs::*;
 use serde::{Deserialize, Serialize};
 use serde_json::json;
@@ -33,6 +33,7 @@ pub struct Info {
     pub second_generation: usize,
     pub spend_probes: usize,
     pub nft_rebroadcast: usize,
+    pub forged_probes: usize,
     pub nft_second_generation: usize,
     pub reorg_over_edge: usize,
 }
@@ -265,6 +266,70 @@ pub fn run_case(case: &Case) -> (Vec<(String, String)>, Info) {
                 }
             }
         }
+        // forged rebroadcast: a block on the tip that carries, besides honest content, an ATR-typed
+        // transaction "rebroadcasting" an output that has NOT left the window - once to its owner as
+        // an ATR slip, once to another key as a Normal slip. "No other output is rebroadcast."
+        if v.is_empty() && !d.dead {
+            let (tip_id, tip_hash) = d.node.tip();
+            if tip_id > gp + 1 && info.forged_probes < 4 {
+                if let Some(path) = table.path(&tip_hash) {
+                    let (ledger, _) = RefLedger::replay(gp, &path);
+                    let live: Option<RefEntry> = ledger.utxo.values().filter(|e| e.amount > 0 && e.slip_type == 0 && e.block_id + gp > tip_id + 1).max_by_key(|e| (e.block_id, e.amount)).cloned();
+                    if let (Some(e), Some(tb)) = (live, d.node.chain.get_latest_block().cloned()) {
+                        for variant in 0..2u8 {
+                            let creator = key(5);
+                            let ts = tb.timestamp + 2 * case.hist.ncfg.heartbeat + 300 + variant as u64;
+                            let gt = if crate::props::c01::density_needs_gt(&d.node) { block_on(d.node.mine_gt(tip_hash, &creator, 7_700 + variant as u64)) } else { None };
+                            let mut blk = match block_on(d.node.make_block_as(&creator, tip_hash, ts, vec![carrier_tx(&creator, ts)], gt)) {
+                                Ok(b) => b,
+                                Err(_) => break,
+                            };
+                            let mut t = Transaction::default();
+                            t.transaction_type = TransactionType::ATR;
+                            t.timestamp = ts;
+                            let mut i = Slip::default();
+                            i.public_key = e.owner;
+                            i.amount = e.amount;
+                            i.block_id = e.block_id;
+                            i.tx_ordinal = e.tx_ordinal;
+                            i.slip_index = e.slip_index;
+                            i.slip_type = SlipType::Normal;
+                            i.generate_utxoset_key();
+                            t.from.push(i);
+                            let mut o = Slip::default();
+                            o.amount = e.amount;
+                            if variant == 0 {
+                                o.public_key = e.owner;
+                                o.slip_type = SlipType::ATR;
+                            } else {
+                                o.public_key = key(6).0;
+                                o.slip_type = SlipType::Normal;
+                            }
+                            t.to.push(o);
+                            t.sign(&creator.1);
+                            blk.transactions.push(t);
+                            re_sign(&mut blk, &creator, true);
+                            info.forged_probes += 1;
+                            let (out, _) = guarded_add(&mut d.node, blk, 256);
+                            match out {
+                                StepOutcome::Result("added_lc") | StepOutcome::Result("added_side") => {
+                                    v.push((
+                                        format!("C13|forged_rebroadcast_accepted|output={}", if variant == 0 { "atr_to_owner" } else { "normal_to_other_key" }),
+                                        format!("a block on tip {} carrying an ATR-typed transaction that consumes output {}-{}-{} (block {} has not left the window of {} blocks) was accepted", tip_id, e.block_id, e.tx_ordinal, e.slip_index, e.block_id, gp),
+                                    ));
+                                    break;
+                                }
+                                StepOutcome::Panicked(site, msg) => {
+                                    v.push((format!("C13|forged_rebroadcast_panics|site={site}"), format!("add_block panicked at {site} on a block with a forged rebroadcast: {msg}")));
+                                    break;
+                                }
+                                _ => {}
+                            }
+                        }
+                    }
+                }
+            }
+        }
         if !v.is_empty() {
             break;
         }
@@ -286,6 +351,7 @@ fn eval(c: &mut Ctx, case: &Case, counting: bool) -> Vec<(String, String)> {
             (info.payout_blocks, "blocks_with_treasury_payout"),
             (info.second_generation, "second_generation_rebroadcasts"),
             (info.spend_probes, "expired_spend_probes"),
+            (info.forged_probes, "forged_rebroadcast_probes"),
             (info.nft_rebroadcast, "nft_group_rebroadcasts"),
             (info.nft_second_generation, "nft_group_rebroadcast_again(second_generation)"),
             (info.reorg_over_edge, "reorgs_across_window_edge"),
